@@ -240,3 +240,42 @@ Definition preserved {A : Type} (o e : option A) : Prop := forall v, o = Some v 
 Definition is_set {A : Type} (o : option A) : Prop := o <> None.
 (* the repeated field of a possibly nil nonce sub-message *)
 Definition hex_of (o : option nonce_pattern) : list (list N) := match o with Some n => np_hex n | None => [] end.
+
+(* ------------------------------------------------------------------ TCP fragmentation of one stream write *)
+(* pkg/protocol/underlay_stream.go writeWithPossibleFragment.  [data] is dataToSend; the math/rand draws are an
+   oracle list (one raw draw per piece; an exhausted list yields 0 - any value is a legal draw).
+   int(math.Sqrt(float64(n))) is modelled by Z.sqrt (floor square root); their agreement for n up to 70000 and
+   around perfect squares up to 2^31 is a tested assumption (Q cases of the driver). *)
+
+(* nil pattern / nil TcpFragment / enable unset or false => one conn.Write of the whole buffer *)
+Definition fragments_enabled (tp : option pattern) : bool := getB (sub (sub tp tp_tcp) tf_enable).
+
+Definition frag_min_len (n : Z) : Z := Z.sqrt n + 1.
+Definition frag_max_len (n : Z) : Z := Z.max (frag_min_len n) (n / 2).
+
+(* the loop: fuel = an upper bound of the number of iterations (every piece is non-empty) *)
+Fixpoint frag_loop (fuel : nat) (mn k : Z) (rem : list N) (draws : list Z) : list (list N) :=
+  match fuel with
+  | O => []
+  | S f =>
+    match rem with
+    | [] => []
+    | _ =>
+      let want := mn + (hd 0 draws) mod k in                         (* mrand.Intn(max-min+1) + min *)
+      let take := Z.to_nat (Z.min want (Z.of_nat (length rem))) in   (* if lenToSend > len(remaining) ... *)
+      firstn take rem :: frag_loop f mn k (skipn take rem) (tl draws)
+    end
+  end.
+
+Definition fragment_plan (data : list N) (draws : list Z) : list (list N) :=
+  let n := Z.of_nat (length data) in
+  frag_loop (length data) (frag_min_len n) (frag_max_len n - frag_min_len n + 1) data draws.
+
+(* the sequence of conn.Write calls for one buffer *)
+Definition tcp_writes (tp : option pattern) (data : list N) (draws : list Z) : list (list N) :=
+  if fragments_enabled tp then fragment_plan data draws else [data].
+
+(* the sleep after a piece: none unless maxSleepMs > 0, else mrand.Intn(maxSleepMs + 1) *)
+Definition frag_sleep (tp : option pattern) (d : Z) : option Z :=
+  let ms := getZ (sub (sub tp tp_tcp) tf_max_sleep) in
+  if 0 <? ms then Some (d mod (ms + 1)) else None.
